@@ -462,7 +462,9 @@ class _CIFBase:
     @property
     def schema(self) -> set[CIFSchema]:
         """CIF schemas used for the object."""
-        return self._schema
+        # A copy, so that callers cannot modify the schemas of this object
+        # through the returned set (Block.schema also returns a new set).
+        return set(self._schema)
 
 
 class Chunk(_CIFBase):
